@@ -25,6 +25,11 @@ Usage-idiom kinds (always two contexts; event pulses only; `<x>` = flag | mailbo
                 `ok = await take()` + `if ok:` (r1; r1c is the same helper behind `if await take():`, whose result is a
                 compile-time constant).
                 A discarded event is reported on `dropped` (it has been handed to the consumer all the same).
+  with_w1/w2    the conditional return sits inside `while self.discard2:` (w2: with an else branch in the loop body)
+  with_f1       ... inside a `for` loop over (discard, discard2), taking the payload after the loop
+  with_f2       ... the same with the taking code in the `else:` clause of the for loop
+  with_n1/n2    ... inside a for loop inside a while loop / a while loop inside a while loop
+  with_a1       ... after a while loop, still inside the `async with`
   extra environment inputs: hold, go  resp.  discard, discard2  (every combination each clock)
 
 All observations are registered outputs written by the context that makes the observation, so what the monitor
@@ -38,9 +43,13 @@ from __future__ import annotations
 
 KINDS = ("flag", "flag_force", "mailbox", "flag_coro", "flag_with", "mailbox_coro")
 IDIOMS = tuple(f"{x}_{k}" for x in ("flag", "mailbox") for k in ("chold_a", "chold_b", "chold_c", "phold_a", "phold_b")) + \
-    ("with_r0", "with_r1", "with_r1c", "with_r2", "with_r3", "with_r4")
+    ("with_r0", "with_r1", "with_r1c", "with_r2", "with_r3", "with_r4",
+     "with_w1", "with_w2", "with_f1", "with_f2", "with_n1", "with_n2", "with_a1")
+LOOP_IDIOMS = ("with_w1", "with_w2", "with_n1", "with_n2", "with_a1")   # discard2 = loop condition ("busy")
 DATA_W = 2
-QUICK_IDIOM_DELAYS = [(0, 0), (1, 1), (0, 1), (1, 0), (1, 2), (2, 1)]
+QUICK_IDIOM_DELAYS = [(0, 0), (1, 1), (0, 1), (1, 0), (1, 2), (2, 1), (3, 0), (0, 3)]
+# delay lines of >= 2 stages (delay >= 3) in each direction and through the `delay=` shorthand (tx == rx)
+QUICK_LONG_DELAYS = [(3, 0), (0, 3), (3, 3), (4, 4), (3, 1), (1, 3)]
 
 
 def is_idiom(cfg):
@@ -54,18 +63,18 @@ def extra_inputs(cfg):
         return ("hold", "go")
     if k in ("with_r2", "with_r4"):
         return ("discard",)
-    if k == "with_r3":
+    if k in ("with_r3", "with_f1", "with_f2") or k in LOOP_IDIOMS:
         return ("discard", "discard2")
     return ()
 
 
 def uses_rdy(cfg):
     k = cfg[0]
-    return not ("chold" in k or k.startswith("with_r"))
+    return not ("chold" in k or k.startswith("with_"))
 
 
 def has_payload(cfg):
-    return cfg[0].startswith("mailbox") or cfg[0].startswith("with_r")
+    return cfg[0].startswith("mailbox") or cfg[0].startswith("with_")
 
 
 def configs(thorough):
@@ -78,6 +87,9 @@ def configs(thorough):
                     if ctxs != 2 and kind.endswith(("coro", "with")):
                         continue  # two coroutines cannot share one context function
                     out.append((kind, tx, rx, ctxs))
+        if not thorough:
+            for tx, rx in QUICK_LONG_DELAYS:
+                out.append((kind, tx, rx, 2))
     for kind in IDIOMS:
         for tx in range(dmax + 1):
             for rx in range(dmax + 1):
@@ -115,7 +127,7 @@ from cohdl import std, Bit, BitVector, Port, Null
 def render_idiom(cfg):
     kind, tx, rx, _ = cfg
     payload = has_payload(cfg)
-    own_payload = kind.startswith("with_r")            # SyncFlag + a payload signal of the wrapper
+    own_payload = kind.startswith("with_")            # SyncFlag + a payload signal of the wrapper
     mb = kind.startswith("mailbox")
     T = f"BitVector[{DATA_W}]"
     ports = """    clk = Port.input(Bit)
@@ -242,6 +254,74 @@ def render_idiom(cfg):
                     else:
                         self.got_data <<= payload
                         return True
+""",
+            "w1": """            async def take():
+                async with x:
+                    while self.discard2:
+                        if self.discard:
+                            self.dropped ^= True
+                            return False
+                    self.got_data <<= payload
+                return True
+""",
+            "w2": """            async def take():
+                async with x:
+                    while self.discard2:
+                        if self.discard:
+                            self.dropped ^= True
+                            return False
+                        else:
+                            self.mark ^= True
+                    self.got_data <<= payload
+                    return True
+""",
+            "f1": """            async def take():
+                async with x:
+                    for b in (self.discard, self.discard2):
+                        if b:
+                            self.dropped ^= True
+                            return False
+                    self.got_data <<= payload
+                return True
+""",
+            "f2": """            async def take():
+                async with x:
+                    for b in (self.discard, self.discard2):
+                        if b:
+                            self.dropped ^= True
+                            return False
+                    else:
+                        self.got_data <<= payload
+                        return True
+""",
+            "n1": """            async def take():
+                async with x:
+                    while self.discard2:
+                        for b in (self.discard,):
+                            if b:
+                                self.dropped ^= True
+                                return False
+                    self.got_data <<= payload
+                return True
+""",
+            "n2": """            async def take():
+                async with x:
+                    while self.discard2:
+                        while self.discard:
+                            self.dropped ^= True
+                            return False
+                    self.got_data <<= payload
+                return True
+""",
+            "a1": """            async def take():
+                async with x:
+                    while self.discard2:
+                        self.mark ^= True
+                    if self.discard:
+                        self.dropped ^= True
+                        return False
+                    self.got_data <<= payload
+                    return True
 """,
         }
         helper = helper["r1" if idiom == "r1c" else idiom]
